@@ -424,6 +424,7 @@ theorem applyAct_erase (s : State) (fh fw : List Nat) (a : Act) (hs : a.shared) 
         simp only [Option.map_some, isDead_iff]
         by_cases h0 : ob.erase.strong = 0 <;> simp [h0] <;> rfl
   case cloneField k => esimp; cases nthMod fh k <;> rfl
+  case downgradeField k => esimp; cases nthMod fh k <;> rfl
   case makeMut r =>
     esimp
     cases s.useRoot r with
@@ -831,6 +832,10 @@ theorem applyAct_std (s : State) (fh fw : List Nat) (a : Act) (hs : a.shared) (h
   case cloneField k =>
     split
     · re (std_incStrong h _)
+    · exact h
+  case downgradeField k =>
+    split
+    · re (std_incWeak h _)
     · exact h
 
 theorem std_beginSingle {s : State} (h : s.Std) (o : Nat) (hl : ∀ ob, s.cell o = some ob → ob.links ≠ none) :
